@@ -512,6 +512,11 @@ class Ctx:
         self.src_tie_ok = info["established"]
         if not info["established"]:
             self.escalated = True
+            try:
+                from . import rwlib
+                rwlib.SIZE_BOOST = True   # the code no longer reads as the proved model: probe sizes harder (rwlib.big_size)
+            except Exception:  # noqa: BLE001
+                pass
             self.notes.append("source tie (translated source = model) not established on this tree: the behavioural "
                               "correspondence is run at escalated depth; this alone is never an alarm")
         return info["established"]
